@@ -490,7 +490,7 @@ def has_history(terms):
 # ----------------------------------------------------------------------------------------------------- lru_cache made visible
 import functools as _functools
 _ORIG_LRU = _functools.lru_cache
-REPO_PACKAGES = ('geodepy', 'api', 'Standalone', 'vp_standalone')
+REPO_PACKAGES = ('geodepy', 'api', 'Standalone', 'mga2gda_standalone')
 
 
 def visible_lru_cache(modname='?'):
